@@ -608,3 +608,22 @@ Qed.
 Theorem identity_change_voids_cookies st now k now2 m :
   check_mac2 (fst (step st (ESetIdentity now k))) now2 m = false.
 Proof. reflexivity. Qed.
+
+(* ------------------------------------------- forged transport is erasable *)
+
+(* For every history: a transport message that is not authentic (unknown or live receiver index, any counter,
+   tag or key wrong, replayed) can be deleted from the history without any effect on what the device does or is
+   afterwards — in particular genuine traffic of the same session is taken in exactly as before. *)
+Theorem forged_transport_erasable st pre post now m q al nonce body :
+  m_type m = MessageTransportType -> (forall p, m_content m <> CTransport (Some p)) ->
+  final step st (pre ++ ERecv now m q al nonce body :: post) = final step st (pre ++ post) /\
+  outs step st (pre ++ ERecv now m q al nonce body :: post) =
+    outs step st pre ++ [] :: outs step (final step st pre) post.
+Proof.
+  intros T H.
+  assert (S : step (final step st pre) (ERecv now m q al nonce body) = (final step st pre, [])).
+  { apply unauthentic_transport_silent_inert; assumption. }
+  split.
+  - rewrite !final_app, final_cons, S. reflexivity.
+  - rewrite outs_app, outs_cons, S. reflexivity.
+Qed.
